@@ -67,7 +67,14 @@ Theorem C18_gem_bump_and_release : forall segs : list UV.Ref.Gem.seg,
   cmp_pad UV.Ref.Gem.seg_cmp (UV.Ref.Gem.SNum 0) (canon_of segs) (UV.Ref.Gem.drop_trailing_zeros (release_list segs)) <> Gt.
 Proof. intros segs H. split; [apply bump_above; exact H|apply release_not_below]. Qed.
 
+(* gem: the release has no pre-release part (a gem version is a pre-release when one of its segments is a string):
+   every segment of release() is a number, and so is every segment of bump() *)
+Theorem C18_gem_release_has_no_prerelease_part : forall segs : list UV.Ref.Gem.seg,
+  forallb UV.Ref.Gem.is_num (release_list segs) = true /\ forallb UV.Ref.Gem.is_num (bump_list segs) = true.
+Proof. exact release_and_bump_numeric. Qed.
+
 Print Assumptions C18_semver_successors_are_ordered.
 Print Assumptions C18_semver_successors_are_strictly_greater.
 Print Assumptions C18_semver_shorthand_bounds_bracket_the_version.
 Print Assumptions C18_gem_bump_and_release.
+Print Assumptions C18_gem_release_has_no_prerelease_part.
